@@ -292,6 +292,158 @@ func genAmbient() string {
 			})
 		}
 	}
+	// state outside the store. (1) fields of keeper / decorator / handler / msg-server structs whose type can hold mutable
+	// data (map, slice, pointer, channel, sync / atomic types); (2) package-level variables that some function WRITES
+	// (assignment, index assignment, ++/--, or a mutating method call such as Store / Delete / LoadOrStore).
+	type srow struct{ file, owner, name, typ string }
+	var stateRows []srow
+	mutableType := func(t string) bool {
+		if t == "*codec.LegacyAmino" {
+			return false
+		}
+		return strings.Contains(t, "map[") || strings.Contains(t, "sync.") || strings.Contains(t, "atomic.") || strings.HasPrefix(t, "*") || strings.HasPrefix(t, "[]") || strings.HasPrefix(t, "chan ")
+	}
+	for _, f := range files {
+		if !consensusFile(f) || strings.HasSuffix(f, ".pb.go") || strings.HasSuffix(f, ".pb.gw.go") {
+			continue
+		}
+		ast.Inspect(parsed[f], func(n ast.Node) bool {
+			ts, ok := n.(*ast.TypeSpec)
+			if !ok {
+				return true
+			}
+			st, ok := ts.Type.(*ast.StructType)
+			if !ok {
+				return true
+			}
+			nm := ts.Name.Name
+			if !(strings.HasSuffix(nm, "Keeper") || strings.HasSuffix(nm, "Decorator") || strings.HasSuffix(nm, "Handler") || nm == "msgServer" || nm == "Querier") {
+				return true
+			}
+			for _, fl := range st.Fields.List {
+				t := strings.Join(strings.Fields(src(fl.Type)), " ")
+				if !mutableType(t) {
+					continue
+				}
+				if len(fl.Names) == 0 {
+					stateRows = append(stateRows, srow{f, nm, "(embedded)", t})
+				}
+				for _, fn := range fl.Names {
+					stateRows = append(stateRows, srow{f, nm, fn.Name, t})
+				}
+			}
+			return true
+		})
+	}
+	// package-level variables per directory
+	pkgVars := map[string]map[string]*ast.ValueSpec{} // dir -> name -> spec
+	for _, f := range files {
+		if !consensusFile(f) || strings.HasSuffix(f, ".pb.go") || strings.HasSuffix(f, ".pb.gw.go") {
+			continue
+		}
+		dir := filepath.Dir(f)
+		for _, d := range parsed[f].Decls {
+			gd, ok := d.(*ast.GenDecl)
+			if !ok || gd.Tok != token.VAR {
+				continue
+			}
+			for _, sp := range gd.Specs {
+				vs := sp.(*ast.ValueSpec)
+				for _, nm := range vs.Names {
+					if nm.Name == "_" {
+						continue
+					}
+					if pkgVars[dir] == nil {
+						pkgVars[dir] = map[string]*ast.ValueSpec{}
+					}
+					pkgVars[dir][nm.Name] = vs
+				}
+			}
+		}
+	}
+	mutators := map[string]bool{"Store": true, "Delete": true, "LoadOrStore": true, "LoadAndDelete": true, "Swap": true, "CompareAndSwap": true, "Add": true, "Set": true, "Put": true, "Range": false}
+	for _, f := range files {
+		if !consensusFile(f) || strings.HasSuffix(f, ".pb.go") || strings.HasSuffix(f, ".pb.gw.go") {
+			continue
+		}
+		vars := pkgVars[filepath.Dir(f)]
+		if len(vars) == 0 {
+			continue
+		}
+		isPkgVar := func(e ast.Expr) (string, bool) {
+			id, ok := e.(*ast.Ident)
+			if !ok {
+				return "", false
+			}
+			vs, ok := vars[id.Name]
+			if !ok {
+				return "", false
+			}
+			if id.Obj != nil && id.Obj.Decl != vs { // resolved to something else (a local variable or parameter)
+				return "", false
+			}
+			return id.Name, true
+		}
+		for _, d := range parsed[f].Decls {
+			fd, ok := d.(*ast.FuncDecl)
+			if !ok || fd.Body == nil || fd.Name.Name == "init" {
+				continue
+			}
+			fname := fd.Name.Name
+			if rn := recvName(fd); rn != "" {
+				fname = rn + "." + fname
+			}
+			seen := map[string]bool{}
+			note := func(name, how string) {
+				if !seen[name+how] {
+					seen[name+how] = true
+					stateRows = append(stateRows, srow{f, fname, name, "package variable " + how})
+				}
+			}
+			ast.Inspect(fd.Body, func(n ast.Node) bool {
+				switch v := n.(type) {
+				case *ast.AssignStmt:
+					if v.Tok == token.DEFINE {
+						return true
+					}
+					for _, l := range v.Lhs {
+						if nm, ok := isPkgVar(l); ok {
+							note(nm, "assigned")
+						}
+						if ix, ok := l.(*ast.IndexExpr); ok {
+							if nm, ok := isPkgVar(ix.X); ok {
+								note(nm, "element assigned")
+							}
+						}
+						if se, ok := l.(*ast.SelectorExpr); ok {
+							if nm, ok := isPkgVar(se.X); ok {
+								note(nm, "field assigned")
+							}
+						}
+					}
+				case *ast.IncDecStmt:
+					if nm, ok := isPkgVar(v.X); ok {
+						note(nm, "incremented")
+					}
+				case *ast.CallExpr:
+					if se, ok := v.Fun.(*ast.SelectorExpr); ok && mutators[se.Sel.Name] {
+						if nm, ok := isPkgVar(se.X); ok {
+							note(nm, "mutated by ."+se.Sel.Name)
+						}
+					}
+					if id, ok := v.Fun.(*ast.Ident); ok && id.Name == "delete" && len(v.Args) > 0 {
+						if nm, ok := isPkgVar(v.Args[0]); ok {
+							note(nm, "element deleted")
+						}
+					}
+				}
+				return true
+			})
+		}
+	}
+	sort.SliceStable(stateRows, func(i, j int) bool {
+		return stateRows[i].file+"|"+stateRows[i].owner+"|"+stateRows[i].name < stateRows[j].file+"|"+stateRows[j].owner+"|"+stateRows[j].name
+	})
 	sort.SliceStable(callers, func(i, j int) bool {
 		return callers[i].callee+"|"+callers[i].file+"|"+callers[i].fn < callers[j].callee+"|"+callers[j].file+"|"+callers[j].fn
 	})
@@ -331,6 +483,14 @@ func genAmbient() string {
 			c = ""
 		}
 		fmt.Fprintf(&sb, "  (%q, %q, %q)%s\n", r.callee, r.file, r.fn, c)
+	}
+	sb.WriteString("]\n\n/-- state that lives outside the key-value store: (file, struct or function, field or variable, type / kind of write) -/\ndef processState : List (String × String × String × String) := [\n")
+	for i, r := range stateRows {
+		c := ","
+		if i == len(stateRows)-1 {
+			c = ""
+		}
+		fmt.Fprintf(&sb, "  (%q, %q, %q, %q)%s\n", r.file, r.owner, r.name, r.typ, c)
 	}
 	sb.WriteString("]\nend Sekai.Gen.Ambient\n")
 	return sb.String()
